@@ -10,6 +10,9 @@ func init() { register("C18", genC18) }
 func genC18(o *Out) {
 	f := o.pinFile("isaac/suffrage_builder.go", "NewSuffrageStateBuilder", "SuffrageStateBuilder.Build", "SuffrageStateBuilder.buildBatch", "SuffrageStateBuilder.prove")
 	o.pinFile("util/worker.go", "BatchWork")
+	// the contract the model assumes of a proof's Prove (it links a proof to the state before it, and a genesis proof to
+	// its own tree): the real one is verified under C13, its source is pinned here as well
+	o.pinFile("isaac/block/suffrage.go", "SuffrageProof.Prove")
 	if f == nil {
 		return
 	}
